@@ -116,7 +116,7 @@ PROPS["C18"] = dict(
 
 PROPS["C19"] = dict(
     level="model_checking",
-    groups=lambda tier, seed, ctx: [Group("c19", ["verif_c19"], jobs=8 if tier == "quick" else 2, harness_timeout=1800 if tier == "quick" else 3600, mem_gb=20 if tier == "quick" else 56)],
+    groups=lambda tier, seed, ctx: [Group("c19", ["verif_c19"], jobs=8 if tier == "quick" else 2, harness_timeout=1800 if tier == "quick" else 3600, mem_gb=20 if tier == "quick" else 40)],
     functions=["main::load_rom", "system::read_header", "cart::Header::{valid_checksum,get_rom_bank_count,get_rom_size_bytes,get_ram_size_bytes,create_cart_state}",
                "emulator::Core::from_rom_file", "mem::MemoryAreas::with_rom_file"],
     bounds={"quick": "all 2^640 header contents; all file lengths 0..9 MiB; the real load_rom/read_header run against a ghost regular file of that length "
@@ -152,7 +152,7 @@ PROPS["C14"] = dict(
     bounds={"quick": "one 4-clock step from EVERY valid schedule position (17556 positions x all STAT enables x all LYC values x arbitrary scroll/window registers): "
                      "position advances by 4 on a 70224 cycle, mode/LY/STAT bits and VBlank/STAT requests equal the closed-form schedule (inductive step => frame length, "
                      "once-per-frame VBlank for histories of any length); one call with 8 clocks from any position, an 88-clock batch from position 153*456+448 (across the frame wrap, start position concrete) and a 24-clock batch from 143*456+444 across the 143->144 hand-over equal the same number of reference steps",
-            "thorough": "plus symbolic batch length k <= 8 from any position (may exceed the time budget: reported inconclusive then)"},
+            "thorough": "plus one call with 16 clocks (4 machine cycles) from any position (a symbolic batch length k <= 8 or k <= 4 from any position did not finish: 18 GB after 40 min)"},
     outside=["frame length and per-frame counts are consequences of the step relation, not separate 17556-step queries", "LCD disabled (LCDC bit 7 = 0) behaviour: not in the statement"],
     stubs=["LCD::new -> same value without the push loop", "VideoState::{find_current_line_sprites,cache_next_tile_row,cache_next_window_tile_row} -> no-ops (they write only the pixel-pipeline caches, which the schedule does not read; native replay runs the real ones)",
            "LCD::get_writing_buffer_line -> a 160-byte scratch line (pixels are C15's subject)"],
